@@ -1,5 +1,6 @@
 SPECIFICATION Spec
 CONSTANTS
+  MaxT = 3
   NT = 3
   MaxSteps = 100000
   Modes = {"fire", "call"}
@@ -7,8 +8,8 @@ CONSTANTS
   Variants = {"intended"}
   WithStop = TRUE
   WithUnreg = TRUE
-  WithOther = TRUE
-  SettleCap = 40
+  WithOther = FALSE
+  KeepOut = FALSE
 INVARIANT TypeOK
 INVARIANT ConformsIntended
 INVARIANT PinnedFailsOnlyUnreg
